@@ -7,8 +7,7 @@ From NV Require Import Place.Policer Place.Rounds.
 Definition ostep := (nat * list (nat * list nat) * list nat * list nat)%type.
 
 Record rcase := mkRC {
-  k_nodes : list nat;
-  k_R : nat;
+  k_rules : list (list nat * nat);   (* one (placement vector, copies number) per REP rule *)
   k_holds : list nat;
   k_orders : list (list nat);
   o_rounds : list (list ostep);    (* executed checks per round *)
@@ -30,7 +29,7 @@ Fixpoint tasks_eqb (a b : list (nat * list nat)) : bool :=
 Definition mark_code (m : mark) : nat := match m with MDefault => 0 | MRedundant => 1 end.
 
 (* replay one round on the model, consuming the observed steps *)
-Fixpoint replay_round (nodes : list nat) (R : nat) (order : list nat) (holds : list nat) (obs : list ostep)
+Fixpoint replay_round (rules : list (list nat * nat)) (order : list nat) (holds : list nat) (obs : list ostep)
   : bool * list nat * list ostep :=
   match order with
   | [] => (true, holds, obs)
@@ -39,34 +38,47 @@ Fixpoint replay_round (nodes : list nat) (R : nat) (order : list nat) (holds : l
       match obs with
       | [] => (false, holds, [])
       | (v', tasks, succ, dels) :: obs' =>
-        let r := node_result nodes R holds v in
+        let r := mnode_result rules holds v in
         if Nat.eqb v v' && tasks_eqb (r_tasks r) tasks && list_eqb (r_succ r) succ
            && list_eqb (map mark_code (r_dels r)) dels
-        then replay_round nodes R rest (node_step nodes R holds v) obs'
+        then replay_round rules rest (mnode_step rules holds v) obs'
         else (false, holds, obs)
       end
-    else replay_round nodes R rest holds obs
+    else replay_round rules rest holds obs
   end.
 
-Fixpoint replay (nodes : list nat) (R : nat) (orders : list (list nat)) (holds : list nat)
+Fixpoint replay (rules : list (list nat * nat)) (orders : list (list nat)) (holds : list nat)
          (obs : list (list ostep)) (after : list (list nat)) : bool :=
   match orders, obs, after with
   | [], [], [] => true
   | o :: ro, s :: rs, a :: ra =>
-    let '(ok, h, rem) := replay_round nodes R o holds s in
+    let '(ok, h, rem) := replay_round rules o holds s in
     ok && match rem with [] => true | _ => false end
-    && list_eqb (sort h) a && replay nodes R ro h rs ra
+    && list_eqb (sort h) a && replay rules ro h rs ra
   | _, _, _ => false
   end.
 
 Definition model_ok (c : rcase) : bool :=
-  replay (k_nodes c) (k_R c) (k_orders c) (k_holds c) (o_rounds c) (o_after c).
+  replay (k_rules c) (k_orders c) (k_holds c) (o_rounds c) (o_after c).
 
-(* reference: after R+1 rounds the holders are exactly the primaries, later rounds
-   change nothing and issue no task; the replicator never over-reports *)
+(* reference (no model).
+   One REP rule: after R+1 rounds the holders are exactly the primaries, later rounds
+   change nothing and issue no task.
+   Several REP rules with overlapping vectors (K = sum of the copies numbers): after K
+   rounds every primary node of every rule holds the object and keeps it; after K+1
+   rounds the holder set no longer changes and no check replicates or deletes anything
+   (a check may still call the replicator with an EMPTY candidate list: a holder
+   confirmed for an earlier vector is not counted for a later one by processNodes, so
+   the node keeps "detecting a shortage" it cannot act upon; nothing is sent).
+   Always: the replicator never over-reports. *)
 Definition step_quiet (s : ostep) : bool :=
   let '(_, tasks, succ, dels) := s in
   match tasks, succ, dels with [], [], [] => true | _, _, _ => false end.
+
+Definition step_still (s : ostep) : bool :=
+  let '(_, tasks, succ, dels) := s in
+  forallb (fun t => match snd t with [] => true | _ => false end) tasks
+  && match succ, dels with [], [] => true | _, _ => false end.
 
 Definition step_bounded (nodes : list nat) (s : ostep) : bool :=
   let '(v, tasks, succ, _) := s in
@@ -74,12 +86,23 @@ Definition step_bounded (nodes : list nat) (s : ostep) : bool :=
   && forallb (fun n => negb (Nat.eqb n v) && memb n nodes
                        && existsb (fun t => memb n (snd t)) tasks) succ.
 
+Definition container (c : rcase) : list nat := flat_map fst (k_rules c).
+
+Definition all_same (l : list (list nat)) : bool :=
+  match l with [] => true | a :: r => forallb (list_eqb a) r end.
+
 Definition ref_ok (c : rcase) : bool :=
-  let prim := sort (primaries (k_nodes c) (k_R c)) in
-  forallb (fun a => list_eqb a prim) (skipn (k_R c) (o_after c))
-  && forallb (fun ss => forallb step_quiet ss) (skipn (S (k_R c)) (o_rounds c))
-  && forallb (fun ss => forallb (step_bounded (k_nodes c)) ss) (o_rounds c)
-  && Nat.leb (k_R c + 2) (length (o_after c)).
+  let K := total_R (k_rules c) in
+  let single := match k_rules c with [_] => true | _ => false end in
+  forallb (fun a => forallb (fun r => forallb (fun p => memb p a) (primaries (fst r) (snd r))) (k_rules c))
+          (skipn K (o_after c))
+  && match k_rules c with
+     | [(nodes, R)] => forallb (fun a => list_eqb a (sort (primaries nodes R))) (skipn K (o_after c))
+     | _ => all_same (skipn K (o_after c))
+     end
+  && forallb (fun ss => forallb (if single then step_quiet else step_still) ss) (skipn (S K) (o_rounds c))
+  && forallb (fun ss => forallb (step_bounded (container c)) ss) (o_rounds c)
+  && Nat.leb (K + 2) (length (o_after c)).
 
 Fixpoint mism_from (i : nat) (f : rcase -> bool) (cs : list rcase) : list nat :=
   match cs with
